@@ -24,16 +24,16 @@ COLUMN_TYPES = [  # declared type, insert literal
     ("int", "1"), ("integer", "2"), ("bigint", "3"), ("smallint", "4"), ("number", "5"), ("number(10,2)", "1.25"), ("number(38,0)", "6"),
     ("number(38,5)", "1.5"), ("decimal(12,3)", "2.125"), ("numeric(5,0)", "7"), ("float", "1.5"), ("double", "2.5"), ("real", "0.5"),
     ("varchar", "'x'"), ("varchar(10)", "'y'"), ("string", "'z'"), ("text", "'t'"), ("char(3)", "'c'"), ("boolean", "true"), ("date", "'2020-01-02'"),
-    ("time", "'01:02:03'"), ("timestamp", "'2020-01-02 03:04:05'"), ("timestamp_ntz", "'2020-01-02 03:04:05'"), ("timestamp_tz", "'2020-01-02 03:04:05 +01:00'"),
-    ("datetime", "'2020-01-02 03:04:05'"), ("binary", "to_binary('6162', 'hex')"), ("variant", "parse_json('{\"a\": 1}')"), ("object", "parse_json('{\"a\": 1}')"),
+    ("time", "'01:02:03'"), ("timestamp", "'2020-01-02 03:04:05'"), ("timestamp_ntz", "'2020-01-02 03:04:05'"), ("timestamp_tz", "'2020-01-02 03:04:05+01:00'"),
+    ("datetime", "'2020-01-02 03:04:05'"), ("binary", "'ab'::binary"), ("variant", "parse_json('{\"a\": 1}')"), ("object", "parse_json('{\"a\": 1}')"),
     ("array", "parse_json('[1, 2]')"),
 ]
 EXPRS = [
     "1", "1.5", "'x'", "true", "null", "1 + 1", "1.5 * 2", "10 / 4", "1::float", "1::varchar", "'2020-01-02'::date", "current_date", "current_timestamp",
     "current_time", "to_date('2020-01-02')", "upper('a')", "length('abc')", "1 = 1", "coalesce(null, 1)", "case when true then 1 else 2 end",
-    "12345678901234567890", "123456789012", "0.000001", "1e10", "-5", "'a' || 'b'", "parse_json('{\"k\": 1}')", "object_construct('a', 1)", "to_binary('ab', 'utf-8')",
+    "12345678901234567890", "123456789012", "0.000001", "1e10", "-5", "'a' || 'b'", "parse_json('{\"k\": 1}')", "object_construct('a', 1)", "'ab'::binary",
     "dateadd(day, 1, '2020-01-02'::date)", "datediff(day, '2020-01-02'::date, '2020-01-05'::date)", "to_timestamp_ntz('2020-01-02 03:04:05')", "to_decimal('1.5', 10, 2)",
-    "round(1.567, 1)", "abs(-3)", "1::number(10,0)", "try_to_decimal('1.5', 10, 1)", "sha2('a')", "[1, 2]", "array_construct(1, 2)", "uuid_string()", "'1 day'::interval",
+    "round(1.567, 1)", "abs(-3)", "1::number(10,0)", "try_to_decimal('1.5', 10, 1)", "sha2('a')", "[1, 2]", "array_construct(1, 2)", "uuid_string()", "'1 day'::interval", "'2020-01-02 03:04:05'::timestamp_ntz(9)", "'2020-01-02 03:04:05'::timestamp(3)",
 ]
 AGGS = ["count(*)", "count(i0)", "sum(i0)", "sum(c5)", "avg(i0)", "min(c0)", "max(c13)", "sum(c10)", "min(c19)", "max(c21)", "listagg(c13, ',')", "array_agg(i0)",
         "count(distinct i0)", "sum(i0) over ()", "row_number() over (order by i0)", "i0 / 2", "i0 * 1.5", "c5 + 1", "c5 * c5", "c10 + 1", "i0 || 'x'"]
@@ -105,7 +105,7 @@ def kind_cases():
     add("statusSelect", "use-schema", "use schema s1")
     add("statusSelect", "use-schema-qualified", "use schema db1.s1")
     add("seededQuery", "random-seed", "select random(42) as r")
-    add("seededQuery", "sample-seed", "select c0 from tt sample (50) seed (7)")
+    add("query", "sample-seed", "select c0 from tt sample (50) seed (7)")
     add("rawCommand", "show-databases", "show databases")
     add("rawCommand", "explain", "explain select 1")
     K.append({"kind": "stmt", "mkind": "beforeExecute", "name": "before-execute", "sql": None, "setup": [], "point": "before-fetch"})
@@ -199,8 +199,8 @@ def _real_stmt(case):
     from snowflake.connector.cursor import DictCursor
 
     def run(read_description: bool):
-        with fakesnow.patch():
-            conn = snowflake.connector.connect(database="db1", schema="s1", nop_regexes=[r"^create stage\b"])
+        with fakesnow.patch(nop_regexes=[r"^create stage\b"]):
+            conn = snowflake.connector.connect(database="db1", schema="s1")
             _fixture(conn)
             cur = conn.cursor()
             res = {}
@@ -238,14 +238,17 @@ def _real_stmt(case):
                 res["state_changed"] = before != _snapshot(conn)
                 res["sqlstate"] = cur.sqlstate
             res["rowcount_after"] = cur.rowcount
-            fetched += cur.fetchall()
+            try:
+                fetched += cur.fetchall()
+            except Exception as e:  # e.g. the pending result set is gone
+                fetched.append((f"fetchall raised {type(e).__name__}: {e}",))
             res["rows"] = [[str(v) for v in r] if r is not None else None for r in fetched]
             res["width"] = len(fetched[0]) if fetched and fetched[0] is not None else None
             res["other_rest"] = [list(r) for r in [other_first] + other.fetchall()]
-            if read_description and isinstance(res["description"], list) and case["mkind"] in ("query", "statusSelect") and case["name"] not in ("merge",):
+            if read_description and isinstance(res["description"], list) and case["mkind"] in ("query", "seededQuery") and case["name"] not in ("merge",):
                 # DictCursor keys of the same statement on a clone of the state are not available (the statement has run);
                 # names are compared with the dict keys in the type sweep.  Here: re-run only side-effect-free queries.
-                if case["mkind"] == "query":
+                if True:
                     d = conn.cursor(DictCursor)
                     d.execute(case["sql"])
                     dr = d.fetchall()
@@ -353,7 +356,7 @@ def _check_stmt(chk, case, real, drv):
         return
     # purity first: same rows / rowcount as the twin that never read description, bystander cursor intact, state unchanged
     if w["rows"] != twin["rows"] or w["rowcount"] != twin["rowcount"] or w["rowcount_after"] != twin["rowcount_after"]:
-        if case["mkind"] != "seededQuery" or case["name"] != "sample-seed":
+        if True:
             chk.violation(f"{where}: reading description changed the pending result set: rows {w['rows']} / rowcount {w['rowcount_after']} vs {twin['rows']} / {twin['rowcount_after']} without it", case,
                           broken="C06_description_pure (correspondence)")
             return
